@@ -1328,8 +1328,8 @@ func c06(c *fw.Ctx) {
 	c.Assume("budget: the framework's 20 CPU-s / 1.5 GiB per case; in the tiled-finder-pattern cases one call needing more than 2 CPU-s on an image of at most 520x520 pixels is charged (signature <target>:budget:tiled-finder-patterns) because the following sizes of the escalation exceed the case budget (measured: DecodeMultiple 200x200 = 50 CPU-s)")
 	c.Assume("DESIGN C06 don't-care: DecodeMultiple returning an empty non-nil slice with nil error; raw decoders, row decoders and parsers may return any non-nil error (kind tallied, not charged); results are not checked for content")
 
-	imgCases := c.Pick(600, 10000)
-	rowCases := c.Pick(100, 2000)
+	imgCases := c.Pick(600, 20000)
+	rowCases := c.Pick(100, 4000)
 	for ri := range c06Readers {
 		rd := &c06Readers[ri]
 		for i := 0; i < imgCases; i++ {
@@ -1390,7 +1390,7 @@ func c06(c *fw.Ctx) {
 	c.Floor("images up to 3x3", 200)
 	c.Floor("calls on a reused reader instance", 10000)
 
-	decCases := c.Pick(500, 8000)
+	decCases := c.Pick(500, 16000)
 	for i := 0; i < decCases; i++ {
 		i := i
 		c.Run(fmt.Sprintf("qrdec/%d", i), func(r *fw.Rec) {
@@ -1431,7 +1431,7 @@ func c06(c *fw.Ctx) {
 	c.Floor("images rotated / sheared", 3000)
 	c.Floor("aztec/decoder.Decode inputs of another size than the layer count implies", 300)
 
-	bitCases := c.Pick(200, 3000)
+	bitCases := c.Pick(200, 6000)
 	for i := 0; i < bitCases; i++ {
 		i := i
 		c.Run(fmt.Sprintf("qrbits/%d", i), func(r *fw.Rec) {
